@@ -64,9 +64,9 @@ func SchedTrace(events []Event, workers int) (lines []map[string]interface{}, ok
 			l["k"] = serveNo[e.G]
 			lines = append(lines, l)
 		case "sv.subscribed":
-			if len(e.Args) > 0 && e.Args[0] != nil && fmt.Sprint(e.Args[0]) != "<nil>" {
-				ok = false // a failing subscribe (Serve shutting itself down) is not part of ResSched
-			}
+			l := line("sv.subscribed", "sv")
+			l["new"] = len(e.Args) > 0 && e.Args[0] != nil && fmt.Sprint(e.Args[0]) != "<nil>"
+			lines = append(lines, l)
 		case "sd.enter", "sd.cas", "cl.bcast", "cl.connclosed", "cl.inchclosed", "sd.waited", "sd.cleared", "sd.stopped", "cl.nil":
 			lines = append(lines, line(e.Point, "sd"))
 		case "sd.ret":
